@@ -849,7 +849,7 @@ def gen_case(rng, tier, game, lang, focus, pool, codec=CODEC):
             ops.append(("L", loc, p, pat))
         else:
             ops.append((k, loc, p))
-    return FsCase(game, lang, layers, ops)
+    return FsCase(game, lang, layers, ops[:maxops])
 
 
 def gen_cases(rng, tier, focus, n, stream):
